@@ -89,6 +89,14 @@ func genLeaf(r *coqfmt.Rng) reflect.Type {
 		for {
 			// not []uint8: that is []byte, which encoding/json reads from a base64 string
 			if e := coqfmt.Pick(r, leafTypes); e.Kind() != reflect.Uint8 {
+				if r.Chance(1, 4) {
+					// lists of pointers to leaves ([]*time.Duration among them): every element
+					// gets its own pointee (seeded C13-q)
+					if r.Chance(1, 2) {
+						e = tDur
+					}
+					return reflect.SliceOf(reflect.PtrTo(e))
+				}
 				return reflect.SliceOf(e)
 			}
 		}
